@@ -426,7 +426,39 @@ enum Got {
     Stuck(usize),
 }
 
+/// Caller buffer "sizes" from here on stand for a sequence of sizes: two 1-byte reads then 70 000-byte
+/// reads (PATTERN_SMALL_THEN_LARGE); 3, 0, 5, 0 then 70 000-byte reads (PATTERN_WITH_EMPTY: a read
+/// into an empty buffer hands out nothing and says nothing about the end of the text).
+pub const PATTERN_SMALL_THEN_LARGE: usize = 1_000_001;
+pub const PATTERN_WITH_EMPTY: usize = 1_000_002;
+
+fn read_pattern<R: Read>(mut r: R, pattern: usize, body_len: usize, retry: bool) -> Got {
+    let head: &[usize] = if pattern == PATTERN_SMALL_THEN_LARGE { &[1, 1] } else { &[3, 0, 5, 0] };
+    let mut buf = vec![0u8; 70_000];
+    let mut out = Vec::new();
+    let limit = 3 * body_len + 16;
+    let mut calls = 0;
+    loop {
+        let size = head.get(calls).copied().unwrap_or(70_000);
+        match r.read(&mut buf[..size]) {
+            Ok(0) if size == 0 => {}
+            Ok(0) => return Got::Ok(out),
+            Ok(n) if n > size => return Got::Err(format!("read with a {size}-byte buffer returned {n}")),
+            Ok(n) => out.extend_from_slice(&buf[..n]),
+            Err(e) if retry && matches!(e.kind(), std::io::ErrorKind::Interrupted | std::io::ErrorKind::WouldBlock | std::io::ErrorKind::TimedOut) => {}
+            Err(e) => return Got::Err(e.to_string()),
+        }
+        calls += 1;
+        if calls > limit {
+            return Got::Stuck(calls);
+        }
+    }
+}
+
 fn read_all<R: Read>(mut r: R, k: usize, body_len: usize, retry: bool) -> Got {
+    if k >= 1_000_000 {
+        return read_pattern(r, k, body_len, retry);
+    }
     let mut buf = vec![0u8; k];
     let mut out = Vec::new();
     // every call hands out at least one byte; the output is at most 3 bytes per input byte (+ a final U+FFFD)
@@ -766,7 +798,7 @@ fn judge(c: &Case, got: &Got, oneshot: Option<&[u8]>, acc: &[Vec<u8>]) -> Option
 // ---------------------------------------------------------------------------------------------
 
 const CONTENT: [&str; 4] = ["own-bom", "ascii-identity", "with-replacement-char", "multibyte-or-remapped"];
-const MODES: [&str; 5] = ["buf1", "buf2", "buf3", "buf8192", "read_to_string"];
+const MODES: [&str; 7] = ["buf1", "buf2", "buf3", "buf8192", "read_to_string", "buf1-1-then-70000", "buf3-0-5-0-then-70000"];
 
 #[derive(Clone, Default)]
 struct Acc {
@@ -775,7 +807,7 @@ struct Acc {
     /// part B: cases in which decoding every transport segment on its own would give another string
     seg_sensitive: u64,
     a_out: [[u64; 5]; 7],
-    b_out: [[u64; 5]; 4],
+    b_out: [[u64; 7]; 4],
     viol: u64,
 }
 
@@ -791,7 +823,7 @@ impl Acc {
             }
         }
         for i in 0..4 {
-            for j in 0..5 {
+            for j in 0..7 {
                 self.b_out[i][j] += o.b_out[i][j];
             }
         }
@@ -951,12 +983,14 @@ fn b_charsets() -> Vec<Enc> {
     ]
 }
 
-const B_ENTRIES: [Entry; 5] = [
+const B_ENTRIES: [Entry; 7] = [
     Entry::Reader(1),
     Entry::Reader(2),
     Entry::Reader(3),
     Entry::Reader(8192),
     Entry::Text,
+    Entry::Reader(PATTERN_SMALL_THEN_LARGE),
+    Entry::Reader(PATTERN_WITH_EMPTY),
 ];
 
 /// The i-th string over the alphabet in length-then-lexicographic order.
